@@ -187,11 +187,33 @@ func r131rest(c *Ctx, rule string) {
 		c.ob(rule, name.typ+"/always-forwards-same-request-and-writer", fn.Pos(), ok, true, "")
 	}
 	// request id value is a fresh uuid
-	gid := c.method("RequestIDMiddleware", "generateID")
+	// the value set is produced by a uuid constructor called for this request (the helper of the reference tree,
+	// generateID, is de-anchored: always expanded into ServeHTTP)
+	gid := c.method("RequestIDMiddleware", "ServeHTTP")
 	okU := false
-	for _, cs := range callsIn(gid) {
-		if n := calleeName(cs.common()); n == "github.com/google/uuid.New" || n == "github.com/google/uuid.NewString" || n == "github.com/google/uuid.NewRandom" || n == "github.com/google/uuid.NewV7" {
-			okU = true
+	isUUIDCall := func(v ssa.Value) bool {
+		call, ok := v.(*ssa.Call)
+		if !ok {
+			return false
+		}
+		switch calleeName(call.Common()) {
+		case "github.com/google/uuid.NewString":
+			return true
+		case "(github.com/google/uuid.UUID).String":
+			inner, ok := call.Call.Args[0].(*ssa.Call)
+			if !ok {
+				return false
+			}
+			switch calleeName(inner.Common()) {
+			case "github.com/google/uuid.New", "github.com/google/uuid.NewRandom", "github.com/google/uuid.NewV7", "github.com/google/uuid.Must":
+				return true
+			}
+		}
+		return false
+	}
+	for _, cs := range callsToName(gid, "(net/http.Header).Set") {
+		if h, _ := constString(cs.common().Args[1]); h == "X-Request-ID" {
+			okU = isUUIDCall(resolve(cs.common().Args[2])) && cs.instr.Parent() == gid
 		}
 	}
 	c.ob(rule, "RequestIDMiddleware/fresh-uuid", gid.Pos(), okU, true, "")
